@@ -76,3 +76,24 @@ Print Assumptions C18_copy_equal.
 Example C18_nonvacuous : WF ex_world /\ live (fs ex_world) 1 = true /\
   in_subtree (fs ex_world) 1 0 = true /\ skw_pending (cget ex_world 0) = true.
 Proof. exact ex_world_wf. Qed.
+
+(* keyword overrides: setattr(obj_copy, name, value) rebinds the slot to a cell that did not exist
+   before (the VALUE is stored, never the buffer that was passed, even when the caller passes one of
+   the original's own arrays) ... *)
+Theorem C18_override_step_fresh : forall u y j v,
+  y < length (co u) -> j < length (attrs (cget u y)) ->
+  let u' := apply_kw u y (KwAttr j v) in
+  nth j (attrs (cget u' y)) 0 = length (heap u) /\
+  hget u' (length (heap u)) = v /\
+  (Bounded u -> forall i, ~ In (length (heap u)) (lown u i)).
+Proof. exact override_step_fresh. Qed.
+Print Assumptions C18_override_step_fresh.
+
+(* ... so that after the whole copy no attribute cell of the clone, overridden or not, can be
+   reached from an original object (instance of C18_copy_separated for the override cells) *)
+Theorem C18_override_cells_separated : forall s x kws, WF s -> live (fs s) x = true ->
+  let s' := copy s x kws in let y := length (fs s) + x in
+  forall c, In c (attrs (cget s' y)) ->
+  forall i, i < length (fs s) -> ~ In c (lown s' i).
+Proof. exact override_cells_separated. Qed.
+Print Assumptions C18_override_cells_separated.
